@@ -662,6 +662,7 @@ CANONICAL = {
     "C19-line-comment-swallows-code": "f(1, // c1q\n 2)",
     "C19-comment-dropped-outside-lists": "1 /*c1q*/ + /*c2q*/ 2",
     "C19-empty-block-comment-dropped": "[/**/ 1]",
+    "C19-plus-dropped-on-function-field": "{ a+: function(x) x }",
     "C20-diag-range-underflow": "+1",
     "C20-rowan-import-nonstring-panic": "import 1",
     "C20-dprint-debug-tab-newline": "// a\tb\n1",
@@ -772,8 +773,9 @@ def c19_failures(case, o):
             probs.append(("comment sequence changed", {"in": cin[:8], "out": cout[:8]}))
         if not probs:
             continue
-        known = classify_c19(case, o, f, probs)
         for what, got in probs:
+            # every symptom is classified on its own: two independent findings may meet in one case
+            known = classify_c19(case, o, f, [(what, got)])
             fl = {"case": {"src": src, "indent": int(ind), "stream": case["stream"]},
                   "what": what, "expected": "same program, same comments", "got": got, "output": y[:600],
                   "summary": f"C19 {what} (indent {ind}): {src[:150]!r}"}
@@ -813,18 +815,30 @@ def classify_c19(case, o, f, probs):
     unary_in = has_unary(xtok) or any(t in ("-", "!", "~", "+") for t in xtok)
     if "/*missing Expr*/" in y and unary_in and any(t in ("-", "!", "~", "+") for t in xtok):
         return "C19-unary-operand-dropped"
-    if whats == {"output parses to a different program"} and "tailstrict" in xtok and "tailstrict" not in ytok \
+    if "output parses to a different program" in whats and "tailstrict" in xtok and "tailstrict" not in ytok \
             and [t for t in xtok if t != "tailstrict"].count("(") == ytok.count("("):
         return "C19-tailstrict-dropped"
-    if "output rejected by the evaluator's parser" in whats and COMMA_SEMI.search(y) and \
-            (has("local:multi-bind") or can == "C19-multi-local-trailing-comma") and \
-            "comment sequence changed" not in whats:
+    if whats == {"output parses to a different program"}:
+        d = [p[1] for p in probs if p[0] == "output parses to a different program"][0]
+        def plus_fn_at(i):
+            j = i + 1
+            while j < len(xtok) and xtok[j] in (":", "::", ":::") and j - i <= 3:
+                j += 1
+            return j > i + 1 and j < len(xtok) and xtok[j] == "function"
+        plus_fn = any(xtok[i] == "+" and plus_fn_at(i) for i in range(len(xtok)))
+        if plus_fn and isinstance(d, str) and d.endswith("[2]: true vs false") and \
+                ytok.count("+") < xtok.count("+"):
+            return "C19-plus-dropped-on-function-field"
+    comma_semi = any(a == "," and b == ";" for a, b in zip(ytok, ytok[1:])) and \
+        not any(a == "," and b == ";" for a, b in zip(xtok, xtok[1:]))
+    if "output rejected by the evaluator's parser" in whats and comma_semi and \
+            (has("local:multi-bind") or can == "C19-multi-local-trailing-comma"):
         return "C19-multi-local-trailing-comma"
     if (has("objcomp:multi-spec") or can == "C19-objcomp-specs-glued") and GLUED.search(y) and \
-            whats <= {"output rejected by the evaluator's parser", "output parses to a different program"}:
+            "comment sequence changed" not in whats:
         return "C19-objcomp-specs-glued"
     # comments
-    if "comment sequence changed" in whats:
+    if True:
         cin = o["lex"]["comments"]
         cout = f["lex"]["comments"]
         # a line comment that swallowed code: an output line comment carries an input id but more text
@@ -844,7 +858,7 @@ def classify_c19(case, o, f, probs):
                         swallowed = True
         if swallowed:
             return "C19-line-comment-swallows-code"
-        if whats == {"comment sequence changed"}:
+        if "comment sequence changed" in whats:
             # lost comments only, all of them placed outside the list printers' reach
             wout = [comment_words(k, t) for k, t in cout]
             win = [comment_words(k, t) for k, t in cin]
@@ -904,10 +918,11 @@ def c20_failures(case, o, relex):
                 if [comment_words(*c) for c in o["lex"]["comments"]] != \
                         [comment_words(*c) for c in f["lex"]["comments"]]:
                     pr.append(("comment sequence changed", ""))
-                if pr:
-                    c19_known = classify_c19(case, o, f, pr)
-            corrupted = c19_known in ("C19-unary-operand-dropped", "C19-multi-local-trailing-comma",
-                                      "C19-objcomp-specs-glued", "C19-line-comment-swallows-code")
+                c19_known = {classify_c19(case, o, f, [p]) for p in pr}
+            else:
+                c19_known = set()
+            corrupted = bool(c19_known & {"C19-unary-operand-dropped", "C19-multi-local-trailing-comma",
+                                          "C19-objcomp-specs-glued", "C19-line-comment-swallows-code"})
             if "panic" in a:
                 k = classify_panic(case, o, a["panic"], y, first=False)
                 if k == "C20-hidoc-annotation-oob" and not (corrupted or can == k or not valid):
@@ -957,8 +972,16 @@ def classify_unstable(case, y, y2, ylex, y2lex, corrupted):
         return "C20-second-pass-on-corrupted-output"
     if not y2lex:
         return None
-    if tokens_of(ylex) != tokens_of(y2lex):
-        return None
+    def no_trailing_commas(ts):
+        return [t for i, t in enumerate(ts) if not (t == "," and i + 1 < len(ts) and ts[i + 1] in (")", "]", "}"))]
+    ty1, ty2 = tokens_of(ylex), tokens_of(y2lex)
+    if ty1 != ty2:
+        # the only token change tolerated below: a trailing comma that comes and goes with the
+        # single-line / multi-line decision, and only for the whitespace-near-comments class
+        if no_trailing_commas(ty1) != no_trailing_commas(ty2) or ylex["comments"] != y2lex["comments"] \
+                or not ylex["comments"]:
+            return None
+        return "C20-whitespace-unstable-near-comments"
     cy = ylex["comments"]
     cy2 = y2lex["comments"]
     if len(cy) == len(cy2):
